@@ -40,6 +40,8 @@ type Prog struct {
 	cgKind   string
 	writers  map[fieldKey][]FieldWrite
 	implsMem map[*types.Interface][]types.Type
+	fstores  map[fkey][]ssa.Value
+	gstores  map[*ssa.Global][]ssa.Value
 }
 
 // Options for Load.
@@ -240,11 +242,11 @@ func (p *Prog) CallGraph() *callgraph.Graph {
 		return p.cg
 	}
 	g := cha.CallGraph(p.SSA)
-	p.cgKind = "cha"
-	if p.Whole {
-		g = vta.CallGraph(ssautil.AllFunctions(p.SSA), g)
-		p.cgKind = "vta(cha)"
-	}
+	// VTA refines CHA by propagating the concrete types that can flow to each interface
+	// value / function value. In the quick tier dependencies have no bodies: values
+	// produced by them carry no repository types (libraries are opaque, see DESIGN 1.5).
+	g = vta.CallGraph(ssautil.AllFunctions(p.SSA), g)
+	p.cgKind = "vta(cha)"
 	p.cg = g
 	return g
 }
